@@ -10,7 +10,7 @@ from ..netgen import gen_knobs
 
 class C13(Machine):
     ID = "C13"
-    FAMILY_WEIGHTS = {"sparse": 4, "dense": 2, "canal": 2, "modular": 2, "maa": 2, "cascade": 2, "degenerate": 1}
+    FAMILY_WEIGHTS = {"sparse": 4, "dense": 2, "canal": 2, "modular": 2, "maa": 2, "cascade": 2, "degenerate": 1, "inputs_mix": 2}
     NMAX = {"quick": 6, "thorough": 8}
     ASSUMPTIONS = [
         "work budget B = 1.5e6 + 500*n*2^n*(|SD|+1) + 50*n^2*(minimum_simulation_budget+1024) back-edges/calls; a livelock exceeds any bound, legitimate ops observed stay >= 6x below it",
